@@ -1,5 +1,6 @@
 import Tickit.Proof.RBSpec
 import Tickit.Proof.RBUtf8
+import Tickit.Proof.RBSpan
 /-
   C03 — render-buffer cells follow last-writer-wins under clip, mask and translation.
 
@@ -428,6 +429,150 @@ example :
     getCellText rb 0 0 255 = (3, [0x61, 0xcc, 0x81]) ∧ getCellText rb 0 1 255 = (3, [0xef, 0xbc, 0xa1]) ∧
     getCellText rb 0 3 255 = (1, [0x62]) ∧ getCellText rb 0 9 255 = (-1, []) := by
   decide +kernel
+
+/-- The single-cell query with any buffer (`getcell` of the harness: also a NULL buffer, and the terminator)
+    returns the value and the bytes of `get_cell_text_spec`'s `getCellText`. -/
+theorem get_cell_text_query (rb : RB) (l c : Int) (len : Nat) :
+    (getCellTextQ rb l c (some len)).ret = (getCellText rb l c len).1 ∧
+    (getCellTextQ rb l c (some len)).bytes = (getCellText rb l c len).2 := getCellTextQ_eq rb l c len
+
+/-! ### the formatted text functions -/
+
+/-- **`textf`, `textf_at`, `vtextf`, `vtextf_at` draw exactly the formatted result, whatever its length.**
+    `put_vtextf` of the working tree (stack buffer, `tmp_alloc`, second `vsnprintf` into the scratch area; constants
+    regenerated from the source) hands the complete result `s` of the formatting to `put_text` — nothing is lost to the
+    terminator at 64 bytes or at the size of the scratch area (256, 512, …) —, never reads past the area, and the
+    area only grows (so its size stays positive, from `tickit_renderbuffer_new` on).  Hence these functions are
+    `text`/`text_at` on `s`, and every theorem above about `Op.textAt`/`Op.text` applies to them. -/
+theorem textf_formats_exactly (tmpsize : Nat) (h : 0 < tmpsize) (s : List UInt8) :
+    (∃ size, vtextf tmpsize s = some (s, size) ∧ tmpsize ≤ size) ∧ 0 < Gen.RBSpan.c_TMPSIZE_INIT :=
+  ⟨vtextfWith_exact _ (by decide) tmpsize h s, by decide⟩
+
+/-- Non-vacuity (and the boundary the seeded regression `tmp_alloc(rb, len)` breaks): a result exactly as long as
+    the scratch area is passed on whole, and the area doubles; without the extra byte it would lose its last
+    character. -/
+example : vtextf 4 (List.replicate 300 65) = some (List.replicate 300 65, 512) ∧
+    vtextfWith ⟨2, 0⟩ 4 [65, 66, 67, 68] = some ([65, 66, 67, 0], 4) := by decide +kernel
+
+/-! ### the span query
+
+  `tickit_renderbuffer_get_span` is an observation API that no clause of C03 speaks about: the statements below are a
+  record of how its answer relates to the abstract content (they are not part of the property, the check gives no
+  SPEC verdict on the answers, and the repair is a note that is not applied). -/
+
+/-- The specification of `tickit_renderbuffer_get_span` for a reading `cfg` of its two critical statements: on a
+    well-formed buffer the query for user coordinates `(l, c)` fails (`-1`, nothing stored) exactly for cells outside
+    the clipping region (after translation); otherwise it reports a piece of `n ≥ 1` columns, inside the buffer, that
+    is homogeneous in the abstract content (`homogeneous`: every cell of it shows the continuation of the first
+    one's content; a line or character cell is a piece of its own) — however the runs were split, shortened or
+    re-pointed — and answers what `specSpanOut` says about the content of the cell and that `n`: inactive and empty
+    for a skipped piece; otherwise active, with the content's pen, the text of the `n` columns (`specSpanBytes`),
+    NUL-terminated if there is room, its length in `info->len` and as the return value, `-1` if it does not fit. -/
+def GetSpanSpec (cfg : SpanCfg) : Prop :=
+  ∀ (rb : RB), WF rb → ∀ (l c : Int) (info infoPen buf : Bool) (len : Nat),
+    if absClipRect rb.clip (l + rb.xlLine) (c + rb.xlCol) = true then
+      ∃ n, homogeneous (absOf rb) (l + rb.xlLine) (c + rb.xlCol) n = true ∧
+        getSpanQ cfg rb l c info infoPen buf len =
+          specSpanOut (absContent rb (l + rb.xlLine) (c + rb.xlCol)) n info infoPen buf len
+    else getSpanQ cfg rb l c info infoPen buf len = { ret := -1 }
+
+/-- **`get_span` answers from the abstract content** — for the repaired text (fixes/C03_get_span.patch:
+    `return retlen;`, column limit `offs + cols`; a note, not applied). -/
+theorem get_span_spec : GetSpanSpec ⟨true, true⟩ :=
+  fun _ wf l c info infoPen buf len => getSpanQ_abs wf l c info infoPen buf len
+
+/-- The model of the working tree is the repaired one exactly when the extractor reads both repaired statements;
+    then the specification holds of it. -/
+theorem get_span_spec_tree (h : spanCfg = ⟨true, true⟩) : GetSpanSpec spanCfg := h ▸ get_span_spec
+
+/-- A text run after an overwrite: `abcdef`, then `A` over column 2. -/
+def spanExample : RB := RB.run (RB.new 1 6 0 0) [.textAt 0 0 [0x61, 0x62, 0x63, 0x64, 0x65, 0x66], .charAt 0 2 0x41]
+
+/-- **The text as found does not satisfy that statement** (recorded, not acted upon; correspondence regressions
+    corpus/C03/get_span_returns_buflen.ops, get_span_text_limit.ops): with `return len;` the query at column 0 of `ab│A│def` with a 16-byte buffer returns 16,
+    not the 2 bytes of `ab`; with the column limit `span->cols` the piece `def` (3 columns from column 3 of its
+    string) yields an empty text.  Either statement alone breaks it. -/
+theorem get_span_found_counterexample :
+    ¬ GetSpanSpec ⟨false, false⟩ ∧ ¬ GetSpanSpec ⟨false, true⟩ ∧ ¬ GetSpanSpec ⟨true, false⟩ := by
+  -- a query that reports `n0` columns but does not answer what the specification says about `n0` columns refutes it
+  have aux : ∀ (cfg : SpanCfg) (rb : RB), WF rb → ∀ (l c : Int) (len : Nat) (n0 : Int),
+      absClipRect rb.clip (l + rb.xlLine) (c + rb.xlCol) = true →
+      (getSpanQ cfg rb l c true true true len).nColumns = some n0 →
+      getSpanQ cfg rb l c true true true len ≠ specSpanOut (absContent rb (l + rb.xlLine) (c + rb.xlCol)) n0 true true true len →
+      ¬ GetSpanSpec cfg := by
+    intro cfg rb wf l c len n0 hclip hn hne h
+    have := h rb wf l c true true true len
+    rw [if_pos hclip] at this
+    obtain ⟨n, _, e⟩ := this
+    have e2 : some n0 = some n := by
+      rw [← hn, e]; simp [specSpanOut]; split <;> rfl
+    cases e2
+    exact hne e
+  have spanExample_wf : WF spanExample := wf_run _ (wf_new 1 6 0 0 (by decide) (by decide)) _
+  refine ⟨?_, ?_, ?_⟩
+  · exact aux _ spanExample spanExample_wf 0 0 16 2 (by decide +kernel) (by decide +kernel) (by decide +kernel)
+  · exact aux _ spanExample spanExample_wf 0 0 16 2 (by decide +kernel) (by decide +kernel) (by decide +kernel)
+  · exact aux _ spanExample spanExample_wf 0 3 16 3 (by decide +kernel) (by decide +kernel) (by decide +kernel)
+
+/-- Non-vacuity of `get_span_spec`: the three pieces of `ab│A│def` as the repaired query reports them — length,
+    activity, pen, text and terminator; a buffer that is too short; a NULL buffer; a cell outside the clip. -/
+example :
+    getSpanQ ⟨true, true⟩ spanExample 0 3 true true true 16 =
+      { ret := 3, nColumns := some 3, isActive := some true, pen := some Pen.empty, len := some 3, textSet := true,
+        bytes := [0x64, 0x65, 0x66], term := true } ∧
+    getSpanQ ⟨true, true⟩ spanExample 0 4 true false true 2 =
+      { ret := 2, nColumns := some 2, isActive := some true, len := some 2, textSet := true, bytes := [0x65, 0x66] } ∧
+    (getSpanQ ⟨true, true⟩ spanExample 0 2 true false true 8).bytes = [0x41] ∧
+    (getSpanQ ⟨true, true⟩ spanExample 0 0 true false true 1).ret = -1 ∧
+    (getSpanQ ⟨true, true⟩ spanExample 0 0 false false false 0).ret = 2 ∧
+    getSpanQ ⟨true, true⟩ spanExample 0 6 true true true 16 = { ret := -1 } ∧
+    homogeneous (absOf spanExample) 0 3 3 = true := by
+  decide +kernel
+
+/-- **The text of a piece of a text run, in C07's terms**: for `n` columns of the string `s` from column `k` on, with
+    `st` = where C07's specification (`specRun`) stops counting whole graphemes of `s` under the limit "`k` columns"
+    and `en` = where it stops, continuing from `st`, under the limit "`k + n` columns", the text is the bytes
+    `s[st.bytes, en.bytes)` and its length `en.bytes − st.bytes`. -/
+theorem span_text_of_text (p : Pen) (s : List UInt8) (k n : Int) :
+    ∃ cs1 t1 cs2 t2 st en,
+      Props.C07.Scans (RB.Utf8.memOf s) (s.length + 1) none Tickit.Utf8.Pos.zero cs1 t1 ∧
+      st = (Tickit.Utf8.specRun (some ⟨none, -1, -1, k⟩) (Props.C07.graphemes cs1) t1 Tickit.Utf8.Pos.zero).pos ∧
+      Props.C07.Scans (RB.Utf8.memOf s) (s.length + 1) none st cs2 t2 ∧
+      en = (Tickit.Utf8.specRun (some ⟨none, -1, -1, k + n⟩) (Props.C07.graphemes cs2) t2 st).pos ∧
+      specSpanBytes (.text p s k) n = (s.drop st.bytes).take (en.bytes - st.bytes) ∧
+      specSpanLen (.text p s k) n = (en.bytes : Int) - st.bytes :=
+  spanText_text_c07 p s k n
+
+/-- **… which is what lies between two counts from the start of the string.**  For `0 ≤ k`, `0 ≤ n`, scanning the
+    characters of `s` once: the text of the `n` columns from column `k` on is `s[st.bytes, en.bytes)` with `st` /
+    `en` the positions where C07's specification stops counting whole graphemes under the limits "`k` columns" /
+    "`k + n` columns" (the code resumes the second count at `st`; `Props.C07.count_resumable` makes that the same). -/
+theorem span_text_between_counts (p : Pen) (s : List UInt8) (k n : Int) (hk : 0 ≤ k) (hn : 0 ≤ n) :
+    ∃ cs t st en,
+      Props.C07.Scans (RB.Utf8.memOf s) (s.length + 1) none Tickit.Utf8.Pos.zero cs t ∧
+      st = (Tickit.Utf8.specRun (some ⟨none, -1, -1, k⟩) (Props.C07.graphemes cs) t Tickit.Utf8.Pos.zero).pos ∧
+      en = (Tickit.Utf8.specRun (some ⟨none, -1, -1, k + n⟩) (Props.C07.graphemes cs) t Tickit.Utf8.Pos.zero).pos ∧
+      st.bytes ≤ en.bytes ∧
+      specSpanBytes (.text p s k) n = (s.drop st.bytes).take (en.bytes - st.bytes) ∧
+      specSpanLen (.text p s k) n = (en.bytes : Int) - st.bytes :=
+  spanText_between_counts p s k n hk hn
+
+/-- Non-vacuity: `a`, combining acute, fullwidth `A`, `b`: the two columns from column 1 on are the wide character
+    (3 bytes); one column from column 1 on ends inside it and is empty; one column from column 2 on begins inside it
+    and takes it whole together with nothing else. -/
+example :
+    specSpanBytes (.text Pen.empty [0x61, 0xcc, 0x81, 0xef, 0xbc, 0xa1, 0x62] 1) 2 = [0xef, 0xbc, 0xa1] ∧
+    specSpanBytes (.text Pen.empty [0x61, 0xcc, 0x81, 0xef, 0xbc, 0xa1, 0x62] 1) 1 = [] ∧
+    specSpanBytes (.text Pen.empty [0x61, 0xcc, 0x81, 0xef, 0xbc, 0xa1, 0x62] 2) 1 = [0xef, 0xbc, 0xa1] ∧
+    specSpanLen (.text Pen.empty [0x61, 0xcc, 0x81, 0xef, 0xbc, 0xa1, 0x62] 0) 4 = 7 := by
+  decide +kernel
+
+/-- The other contents: nothing for skipped and erased pieces, the glyph of a line cell, the character of a
+    character cell. -/
+theorem span_text_simple (p : Pen) (m : Nat) (cp n : Int) :
+    specSpanBytes .skip n = [] ∧ specSpanBytes (.erase p) n = [] ∧
+    specSpanBytes (.line p m) n = RB.Utf8.put (Gen.RBWidth.linemaskToChar.getD m 0) ∧
+    specSpanBytes (.char p cp) n = RB.Utf8.put cp.toNat := ⟨rfl, rfl, rfl, rfl⟩
 
 /-! ### facts regenerated from the C source on every run (`bin/extract.d/25_rbwidth.py` → `Gen/RBWidth.lean`) -/
 
